@@ -293,6 +293,9 @@ func (st *State) modularCall(fr *Frame, in ssa.Instruction, fn *ssa.Function, c 
 			if r.Type == fn.Name() {
 				csc := st.specCtx(fr, "oncall "+r.Type)
 				csc.old = st.frames[0].old
+				for i, a := range args {
+					csc.vars[fmt.Sprintf("callarg%d", i)] = a // the arguments of the call, by position
+				}
 				st.oblige("callsite", r.Clause.Label, r.Clause.Props, e.evalClause(csc, r.Clause), pos)
 			}
 		}
